@@ -196,8 +196,12 @@ class C20(Harness):
         for i in range(len(FORMATS2)):
             for j in range(len(FORMATTERS)):
                 us.append({'kind': 'format', 'i2': i, 'formatter': j})
-        for cfg in range(4):
-            us.append({'kind': 'ops', 'cfg': cfg, 'n': b['ops_len']})
+        for cfg in range(5):
+            us.append({'kind': 'ops', 'cfg': cfg, 'n': b['ops_len'] if cfg < 4 else 2})
+        us.append({'kind': 'samestream'})
+        for style, fmt in (('classic', '%(nosuch)s %(message)s'), ('format', '{nosuch} {message}'),
+                           ('template', '$nosuch $message')):
+            us.append({'kind': 'arbitrary-order', 'style': style, 'fmt': fmt})
         for lv in ('-2', '-1', '0', '1', '15', '49', '50', '51', '52', 'WARN', 'Blather', 'nope'):
             us.append({'kind': 'factory', 'level': lv})
         # the same logger name configured by consecutive configurations (process-global logger object)
@@ -265,6 +269,10 @@ class C20(Harness):
                 return self._factory(unit)
             if k == 'reconf':
                 return self._reconf(unit, inp)
+            if k == 'samestream':
+                return self._samestream()
+            if k == 'arbitrary-order':
+                return self._arbitrary_order(unit)
         except Exception as e:
             return ('crash', type(e).__name__, str(e)[:80])
 
@@ -345,12 +353,15 @@ class C20(Harness):
             '<logfile>\npath %s\n</logfile>\n<logfile>\npath STDOUT\nlevel debug\nformat %%(levelname)s-%%(message)s\n</logfile>\n' % paths[0],
             '<logfile>\npath %s\ndelay yes\n</logfile>\n<logfile>\npath %s\nmax-size 1mb\nold-files 2\n</logfile>\n'
             '<logfile>\npath %s\nwhen D\nold-files 1\n</logfile>\n' % (paths[0], paths[1], paths[2]),
+            # three sections on standard streams, two of them on the SAME stream, different levels
+            '<logfile>\npath STDOUT\nlevel warn\nformat %(message)s\n</logfile>\n<logfile>\npath STDOUT\nlevel debug\nformat A-%(message)s\n</logfile>\n'
+            '<logfile>\npath STDERR\nlevel error\nformat %(message)s\n</logfile>\n',
         ][cfgno]
         text = '<logger>\nname vf.c20.n%d\nlevel %s\npropagate no\n%s</logger>\n<eventlog>\nlevel debug\n</eventlog>\n' % (
             cfgno, level, handlers)
         schema = ZConfig.loadSchemaFile(io.StringIO(LOG_SCHEMA))
         cfg, _ = ZConfig.loadConfigFile(schema, io.StringIO(text))
-        return cfg, [0, 1, 2, 3][cfgno]
+        return cfg, [0, 1, 2, 3, 3][cfgno]
 
     def _reset_logging(self, name):
         from ZConfig.components.logger import loghandler
@@ -391,6 +402,42 @@ class C20(Harness):
                 if h not in root_before:
                     root.removeHandler(h)
             root.setLevel(logging.WARNING)
+
+    def _samestream(self):
+        """one handler per configured section, in order, each with its own level and format - also when
+        several sections name the same standard stream"""
+        name = 'vf.c20.n4'
+        self._reset_logging(name)
+        try:
+            cfg, _ = self._load_loggers(4)
+            lg = cfg.loggers[0]()
+            rec = logging.LogRecord('n', 50, 'p', 1, 'hello', (), None)
+            return ('ok', [type(h).__name__ for h in lg.handlers], [h.level for h in lg.handlers],
+                    [h.format(rec) for h in lg.handlers])
+        finally:
+            self._reset_logging(name)
+
+    def _arbitrary_order(self, unit):
+        """the same format first in a section with arbitrary-fields on, then with it off: the second
+        one must be refused at load time (it names a field ordinary records do not have)"""
+        import ZConfig
+        schema = ZConfig.loadSchemaFile(io.StringIO(LOG_SCHEMA))
+        outs = []
+        for arb in ('true', 'false'):
+            text = ('<logger>\n<logfile>\npath STDOUT\nstyle %s\narbitrary-fields %s\nformat %s\n</logfile>\n</logger>\n'
+                    % (unit['style'], arb, unit['fmt'].replace('$', '$$')))
+            try:
+                cfg, _ = ZConfig.loadConfigFile(schema, io.StringIO(text))
+            except Exception as e:
+                outs.append('refused')
+                continue
+            f = cfg.loggers[0].handler_factories[0].create_formatter()
+            try:
+                f.format(logging.LogRecord('n', 30, 'p', 1, 'hello', (), None))
+                outs.append('formats')
+            except Exception as e:
+                outs.append('FORMAT-RAISED-' + type(e).__name__)
+        return ('ok', outs)
 
     def _reconf(self, unit, inp):
         """n configurations for ONE logger name, each with its own propagate flag (z3 boolean) and
@@ -502,6 +549,10 @@ class C20(Harness):
             return ('ops-consistent',)
         if k == 'reconf':
             return ('reconf-consistent',)
+        if k == 'samestream':
+            return ('ok', ['StreamHandler'] * 3, [30, 10, 40], ['hello', 'A-hello', 'hello'])
+        if k == 'arbitrary-order':
+            return ('ok', ['any', 'refused'])
         if k == 'factory':
             lv = unit['level']
             try:
@@ -522,6 +573,9 @@ class C20(Harness):
             return z3.BoolVal(real == ('ok', 'formats', True) or list(real) == ['ok', 'formats', True])
         if k == 'ops':
             return z3.BoolVal(self._ops_ok(unit, real))
+        if k == 'arbitrary-order':
+            # with arbitrary-fields off: refused at load time, or at least never raising on a record
+            return z3.BoolVal(real[0] == 'ok' and not real[1][1].startswith('FORMAT-RAISED'))
         if k == 'reconf':
             if real[0] != 'ok':
                 return z3.BoolVal(False)
@@ -532,8 +586,8 @@ class C20(Harness):
     def _ops_ok(self, unit, real):
         if real[0] != 'ok':
             return False
-        nfile = [0, 1, 1, 3][unit['cfg']]
-        nh = [1, 1, 2, 3][unit['cfg']]        # NullHandler when no handler is configured
+        nfile = [0, 1, 1, 3, 0][unit['cfg']]
+        nh = [1, 1, 2, 3, 3][unit['cfg']]     # NullHandler when no handler is configured
         created = False
         alive = 0
         for step in real[1]:
